@@ -1315,13 +1315,13 @@ BOUND_PRELUDE = ("interface HasArea {\n  method area(): int\n}\n"
                  "class Blob(val name: Str) {}\n")
 
 
-def bound_programs():
+def bound_programs(max_n=4):
     """For functions, methods and classes with 1..4 type parameters, every non-empty subset bounded by
     `HasArea`: one valid control, one program per bounded position whose type argument (`Blob`) does not
     satisfy the bound (explicit type arguments and inferred), and one violating every bounded position.
     Each item: (description, bounded flags, satisfied flags, program)."""
     out = []
-    for n in range(1, 5):
+    for n in range(1, max_n + 1):
         for mask in range(1, 1 << n):
             bounded = [(mask >> i) & 1 == 1 for i in range(n)]
             tps = ", ".join(f"P{i}: HasArea" if bounded[i] else f"P{i}" for i in range(n))
@@ -1364,7 +1364,7 @@ def bound_programs():
 
 
 def check_bounds(ctx, stats, open_f):
-    items = bound_programs()
+    items = bound_programs(3 if ctx.quick else 4)      # 1..3 type parameters every run, 4 in thorough
     answers = eval_programs([it[4] for it in items])
     model = run_model([f"bound {it[1]} {it[2]}" for it in items])
     for (d, flags, sat, viol, prog), a, m in zip(items, answers, model):
@@ -1599,7 +1599,7 @@ def run(ctx):
         ("member-refs", lambda: check_member_refs(ctx, rng.fork(), stats, open_f)),
         ("loops", lambda: check_loops(ctx, rng.fork(), ctx.scale(40, 1200), stats, open_f)),
         ("generated", lambda: check_generated(ctx, rng.fork(), ctx.scale(24, 600), stats, open_f)),
-        ("mutants", lambda: check_mutants(ctx, rng.fork(), ctx.scale(200, 6000), stats, open_f)),
+        ("mutants", lambda: check_mutants(ctx, rng.fork(), ctx.scale(160, 6000), stats, open_f)),
         ("gate", lambda: check_gate(ctx, stats)),
     ]
     for name, f in steps:
@@ -1616,10 +1616,12 @@ def run(ctx):
         "rule": "evaluations = kernel lines + string-literal programs + generated matches + sample/std mutants + generated programs + nested-loop programs + multi-module bases and cross-module mutants + corpus; non-trivial = programs the real checker ACCEPTED that were then compiled in-process, validated by wasmparser and executed on both back ends under Node (accepted mutants, generated programs, accepted matches, closed string literals)",
         "samples": stats.pop("samples"), "traces_validated_against_impl": stats.get("layout_cases", 0) + stats["kernel_lines"] + stats["str_cases"] + stats["match_cases"] + len(gl),
         "stats": stats,
-        "pending": ["type soundness of the checker and well-typedness of the whole wasm lowering are not proved (oracle only); next kernels: LIR StructInit/IndexedAccess typing through local_variables, closure-context erasure + ref.cast on direct calls",
+        "pending": ["type soundness of the checker and well-typedness of the whole wasm lowering are not proved (oracle only); proved kernels: compile gate, pattern lowering + bindings, enum representation/destructuring casts, bounds validation, cast insertion for erased context parameters, use-collector liveness corollaries",
                     "Model/EnumRepr.lean layoutOf is the closed form of the variant loop (tied by the layout stream), not a statement-by-statement mirror",
-                    "freshness of field-access temporaries / variable_cx scoping of lower_matching_pattern (binding temporaries are covered)",
-                    "merge_total (constant merger) lives in C02; C03 only ties 'never aborts'",
+                    "Model/CastInsert.lean is tied through wasmparser validation of the 38 method-as-value controls (no line protocol of its own); dynamic safety of the inserted ref.cast (the receiver really has the class type) is not stated",
+                    "liveness: corollaries on C02's DCE use-collector model; the separate collectors of unused_name_elimination.rs / lir_unused_name_elimination.rs (global strings, function names, types) have no model of their own - covered by the sole-reference family",
+                    "freshness of field-access temporaries / variable_cx scoping of lower_matching_pattern",
+                    "C03-F10 open (golden test pins the acceptance)",
                     "identifier-swap mutation sites are sampled (6000 of 19.7k per thorough run)"]})
     ctx.assumptions += ["Node >= 22 and wasmparser 0.252 (all proposals on) as validation/execution oracles",
                         "match tie: checker-resolved tag_order/field_order are computed by the generator the way main_checker.rs does (index of the name)"]
